@@ -21,6 +21,7 @@
 package distiller
 
 import (
+	"bytes"
 	"errors"
 	"fmt"
 	"io"
@@ -29,13 +30,20 @@ import (
 	"os"
 	"strings"
 	"time"
+	"unicode/utf8"
 
 	"github.com/go-shiori/dom"
+	"github.com/gogs/chardet"
 	"github.com/markusmobius/go-domdistiller/data"
 	"github.com/markusmobius/go-domdistiller/internal/domutil"
 	"github.com/markusmobius/go-domdistiller/internal/extractor"
 	"github.com/markusmobius/go-domdistiller/internal/pagination"
 	"golang.org/x/net/html"
+	"golang.org/x/net/html/charset"
+	xunicode "golang.org/x/text/encoding/unicode"
+	"golang.org/x/text/runes"
+	"golang.org/x/text/transform"
+	"golang.org/x/text/unicode/norm"
 )
 
 // PaginationAlgo is the algorithm to find the pagination links.
@@ -165,7 +173,7 @@ func ApplyForFile(path string, opts *Options) (*Result, error) {
 // Apply runs distiller for the specified io.Reader.
 func ApplyForReader(r io.Reader, opts *Options) (*Result, error) {
 	// Parse input
-	doc, err := dom.Parse(r)
+	doc, err := parseReader(r)
 	if err != nil {
 		return nil, err
 	}
@@ -298,4 +306,56 @@ func sanitizeOutput(container *html.Node) {
 	for elem, markers := range placeholders {
 		elem.Attr = markers
 	}
+}
+
+// parseReader parses the document in r after converting it to UTF-8. It does
+// what dom.Parse does, except for the choice of the charset: the detector runs
+// its recognizers concurrently, and when several charsets reach the same, highest
+// confidence dom.Parse takes whichever recognizer happened to finish first, so the
+// same bytes were decoded differently from one call to the next. Here the charset
+// is chosen among the best candidates by a fixed rule.
+func parseReader(r io.Reader) (*html.Node, error) {
+	content, err := io.ReadAll(r)
+	if err != nil {
+		return nil, err
+	}
+
+	// Detect page encoding
+	candidates, err := chardet.NewHtmlDetector().DetectAll(content)
+	if err != nil {
+		return nil, err
+	}
+
+	best := candidates[0]
+	validUTF8 := utf8.Valid(content)
+	for _, candidate := range candidates[1:] {
+		if candidate.Confidence < best.Confidence {
+			continue
+		}
+
+		// Equally confident: UTF-8 wins if the content is valid UTF-8,
+		// otherwise the name of the charset decides.
+		switch {
+		case validUTF8 && best.Charset == "UTF-8":
+		case validUTF8 && candidate.Charset == "UTF-8":
+			best = candidate
+		case candidate.Charset < best.Charset:
+			best = candidate
+		}
+	}
+
+	pageEncoding, _ := charset.Lookup(best.Charset)
+	if pageEncoding == nil {
+		pageEncoding = xunicode.UTF8
+	}
+
+	// Parse HTML using the page encoding. The text is converted from NFD to
+	// NFC and soft hyphens are removed, like dom.Parse does.
+	softHyphenSet := runes.Predicate(func(r rune) bool { return r == '\u00AD' })
+	normalizer := transform.Chain(norm.NFD, runes.Remove(softHyphenSet), norm.NFC)
+
+	var reader io.Reader = bytes.NewReader(content)
+	reader = transform.NewReader(reader, pageEncoding.NewDecoder())
+	reader = transform.NewReader(reader, normalizer)
+	return html.Parse(reader)
 }
